@@ -408,13 +408,16 @@ func genAPI(r *hx.Rand, tier string) input {
 // ------------------------------------------------------------ gen / shrink
 
 func gen(r *hx.Rand, tier string) []json.RawMessage {
-	nasm, nleaf, napi := 20, 6, 80
+	nasm, nleaf, napi, nvm := 20, 6, 80, 12
 	if tier == "thorough" {
-		nasm, nleaf, napi = 250, 100, 1000
+		nasm, nleaf, napi, nvm = 250, 100, 1000, 150
 	}
 	var out []json.RawMessage
 	for i := 0; i < napi; i++ {
 		out = append(out, hx.J(genAPI(r.Fork(), tier)))
+	}
+	for i := 0; i < nvm; i++ {
+		out = append(out, hx.J(genVM(r.Fork(), tier)))
 	}
 	for i := 0; i < nleaf; i++ {
 		out = append(out, hx.J(genAsm(r.Fork(), tier, "leaf")))
@@ -449,6 +452,14 @@ func shrink(raw json.RawMessage) []json.RawMessage {
 			c := *in.Asm
 			c.Buf = false
 			out = append(out, hx.J(input{Kind: "asm", Asm: &c}))
+		}
+	case "vm":
+		sc := in.VM.Script
+		keep := len(sc) - 4*(len(in.VM.TLBs)+1)
+		for i := 0; i < keep && len(out) < 60; i++ {
+			c := *in.VM
+			c.Script = append(append([]VMOp{}, sc[:i]...), sc[i+1:]...)
+			out = append(out, hx.J(input{Kind: "vm", VM: &c}))
 		}
 	case "api":
 		// prefixes stay disciplined (dropping an inner call would not)
